@@ -7,7 +7,7 @@
 (* addressed lanes change.                                                     *)
 EXTENDS Dna, TLC
 
-CONSTANTS S, B, LB, RunAlpha
+CONSTANTS S, B, LB, RunAlpha, FullMask
 VARIABLE w
 
 ZeroW == [i \in 1..B |-> 0]
@@ -27,7 +27,9 @@ Max0(a) == IF a > 0 THEN a ELSE 0
 \* set_slice_mut (vmer.rs:65-90); value = B lanes, run in the top n lanes
 SetSlice(v, p, n, value) ==
   LET b0 == p \div B   bp == p % B
-      keepBottom == Max0(B - (bp + n))
+      \* bottom_mask(B - (bp + n)); FullMask = FALSE is the helper as pinned: asked for a whole word (bp = 0, n = 0) it computed
+      \* (1 << 2B) - 1 with a shift by the full width, which wraps to 0 in a release build - nothing kept (defect 8)
+      keepBottom == IF ~FullMask /\ bp + n = 0 THEN 0 ELSE Max0(B - (bp + n))
       prot0(i) == i <= bp \/ i > B - keepBottom \/ (b0 = S - 1 /\ i > B - LB)
       vtop == ShR(value, bp)
       w0 == [i \in 1..B |-> IF prot0(i) THEN v[b0 + 1][i] ELSE vtop[i]]
@@ -56,7 +58,7 @@ Ops(v) ==
   \cup {[op |-> "set", post |-> SetMut(v, p, b), abs |-> [Abs(v) EXCEPT ![p + 1] = b], len |-> LenOf(v)] : p \in 0..(LenOf(v) - 1), b \in {0, 3}}
   \cup UNION {UNION {{[op |-> "set_slice", post |-> SetSlice(v, p, n, ValueOf(run, j)), len |-> LenOf(v),
                        abs |-> [i \in 1..LenOf(v) |-> IF i > p /\ i <= p + n THEN run[i - p] ELSE Abs(v)[i]]] :
-                        run \in Runs(n), j \in {0, 3}} : n \in 1..Min2(B, LenOf(v) - p)} : p \in 0..(LenOf(v) - 1)}
+                        run \in Runs(n), j \in {0, 3}} : n \in 0..Min2(B, LenOf(v) - p)} : p \in 0..(LenOf(v) - 1)}
   \cup {[op |-> "rc", post |-> RcOp(v), abs |-> RC(Abs(v)), len |-> LenOf(v)]}
 
 Check(v, o) == /\ Assert(LenOf(o.post) = o.len, <<"length field changed", v, o>>)
